@@ -1,0 +1,37 @@
+//! Verification hooks (cargo feature `verif_hooks`, off by default).
+//! Nothing here is compiled into a normal build.
+use std::cell::RefCell;
+use std::sync::{Arc, RwLock};
+
+thread_local! {
+    static DATA_DIR: RefCell<Option<String>> = RefCell::new(None);
+}
+
+/// Per-thread override of the data directory (None = use NUN_DBS_DIR).
+pub fn set_data_dir(dir: Option<String>) {
+    DATA_DIR.with(|d| *d.borrow_mut() = dir);
+}
+
+pub fn data_dir() -> Option<String> {
+    DATA_DIR.with(|d| d.borrow().clone())
+}
+
+type YieldHook = Arc<dyn Fn(&'static str) + Send + Sync>;
+
+lazy_static::lazy_static! {
+    static ref YIELD_HOOK: RwLock<Option<YieldHook>> = RwLock::new(None);
+}
+
+/// Install (or remove) the callback invoked before every lock acquisition site.
+pub fn set_yield_hook(hook: Option<YieldHook>) {
+    *YIELD_HOOK.write().unwrap() = hook;
+}
+
+/// Called immediately before a lock acquisition on `Database.map`, `Watchers.map`
+/// or `Database.connections`; `site` is `<function>:<lock>:<mode>`.
+pub fn yield_point(site: &'static str) {
+    let hook = { YIELD_HOOK.read().unwrap().clone() };
+    if let Some(h) = hook {
+        h(site);
+    }
+}
